@@ -15,7 +15,8 @@
 (*  pt  eu | br | fem                                                      *)
 (*  it  compound (elision) | noelide | spaced (thousands group apart)      *)
 (*  de  std | bare (no ein before hundert/tausend) | ss (dreissig) |       *)
-(*      split (morphemes apart); always eine Million / eine Milliarde      *)
+(*      split (morphemes apart) | groups (thousands compound, rest) |      *)
+(*      groups3 (hundreds apart too); always eine Million / Milliarde      *)
 (*  nl  std | accent (één) | split                                         *)
 (***************************************************************************)
 EXTENDS Chars, Num, TLC
@@ -193,7 +194,13 @@ DeCard(gs, v) ==
                             ELSE <<glue(De999M(gs[i], FALSE, ein)), plur>>
       th == IF gs[2] = 0 THEN <<>> ELSE (IF gs[2] > 1 \/ ein THEN De999M(gs[2], FALSE, ein) ELSE <<>>) \o <<"tausend">>
       un == IF gs[1] = 0 THEN <<>> ELSE De999M(gs[1], TRUE, ein)
-      s == JoinW(big(4, "milliarde", "milliarden") \o big(3, "million", "millionen") \o <<glue(th \o un)>>)
+      \* groups: the thousands compound and the rest as two words; groups3: hundreds apart as well
+      hun == IF gs[1] >= 100 THEN (IF gs[1] \div 100 > 1 \/ ein THEN <<DE1[gs[1] \div 100]>> ELSE <<>>) \o <<"hundert">> ELSE <<>>
+      rest == IF gs[1] % 100 > 0 THEN De99M(gs[1] % 100, TRUE) ELSE <<>>
+      low == IF v = "groups" THEN <<glue(th), glue(un)>>
+             ELSE IF v = "groups3" THEN <<glue(th), glue(hun), glue(rest)>>
+             ELSE <<glue(th \o un)>>
+      s == JoinW(big(4, "milliarde", "milliarden") \o big(3, "million", "millionen") \o low)
   IN IF v = "ss" THEN ReplaceStr(s, "ß", "ss") ELSE s
 
 (* ======================================================================= *)
@@ -225,7 +232,7 @@ Variants(L) ==
     [] L = "es" -> <<"masc", "fem">>
     [] L = "pt" -> <<"eu", "br", "fem">>
     [] L = "it" -> <<"compound", "noelide", "spaced">>
-    [] L = "de" -> <<"std", "bare", "ss", "split">>
+    [] L = "de" -> <<"std", "bare", "ss", "split", "groups", "groups3">>
     [] L = "nl" -> <<"std", "accent", "split">>
 Cardinal(L, gs, v) ==
   CASE L = "en" -> EnCard(gs, v) [] L = "fr" -> FrCard(gs, v) [] L = "es" -> EsCard(gs, v) [] L = "pt" -> PtCard(gs, v)
